@@ -57,6 +57,30 @@ CHECKS = {
         design_ref="DESIGN.md 2.1, 5 (C05)", note=PIPE_NOTE,
         technique="TLC model checking of recorded strategy networks + replay of every instance on the real code",
         engine="tlc"),
+    "C07": dict(
+        category="model_checking",
+        text="spec/Combinators.tla transcribes And/Or/Majority (over denormalised standing recommendations), Split, MACD-RSI, Inverse, "
+             "No-Loss and Stop-Loss (sentinel state next to an independently tracked abstract position). TLC checks NoLossSafe, "
+             "StopLossSafe, Repr and VoteSupported over every word of (sub-actions, close) steps to the depth bound for K=2,3 and "
+             "several percentages, emits every behaviour, and each is replayed on the REAL combinators wrapped around scripted stubs "
+             "(exact comparison). Random long words on the real combinators and the real MACD-RSI strategy beside its own "
+             "sub-strategies are logged and validated by TLC (CombinatorsTrace.tla).",
+        design_ref="DESIGN.md 2.4, 5 (C07)",
+        note="Trusted: TLC, stub strategies, integer closes / dyadic percentages (exact IEEE products). Depth 3-4 exhaustive; longer "
+             "words through trace validation.",
+        technique="TLC model checking + model-generated behaviours replayed on the code + TLC trace validation of recorded runs",
+        engine="tlc"),
+    "C08": dict(
+        category="model_checking",
+        text="spec/Actions.tla models Outcome, NormalizeActions, DenormalizeActions, CountTransactions as state machines over "
+             "(price 2^p, action) pairs; TLC explores every word to depth 5-6 checking ZeroUntilBuy, BuyAndHold, NormInvariant, "
+             "NormDenormId, Alternates, AllInAllOut, emits every behaviour (20k-250k) and each is replayed on the real functions and "
+             "ComputeWithOutcome(BuyAndHold) bit for bit (the lattice makes IEEE arithmetic exact); the derived relations are "
+             "asserted on seeded generic prices as well.",
+        design_ref="DESIGN.md 2.4, 5 (C08)",
+        note="Trusted: TLC, the replay harness. Prices restricted to powers of two for exact comparison; generic prices sampled.",
+        technique="TLC model checking + exhaustive model-generated histories replayed on the real code",
+        engine="tlc"),
     "C14": dict(
         category="model_checking",
         text="Report() of every strategy (base, compound, decorated) x configurations x n beyond the warm-up: the network recorded "
